@@ -31,6 +31,9 @@ def _rule_vocabulary():
     return _RULE_VOCAB
 
 
+SUM = sp.Function("SUM")            # SUM(term(k_), lo, hi): sum of term over k_ in [lo, hi)
+K_ = sp.Symbol("k_", integer=True)
+SIZE = sp.Function("size")
 frac = sp.Function("frac")
 ipart = sp.Function("ipart")
 
@@ -118,6 +121,8 @@ class Scanner:
         self._seen_calls = set()
         self.ptr_alias = {}        # local pointer decl -> (array text, offset): T* p = &a[e]
         self.ref_alias = {}        # local reference decl -> (base, idx, path): T& r = a[e] / obj.field
+        self.track_all = False     # follow multiply-written scalar locals everywhere (always done inside inlined helpers)
+        self.cur = {}              # scalar local written more than once -> (current value | None, guard depth, loop depth at its declaration)
         self.inline_value = {}     # call node id -> value of an inlined helper call
         self.inlined = []          # (call node, callee name) of the helper calls that were looked into
         self._inline_depth = 0
@@ -207,6 +212,10 @@ class Scanner:
         if k == "UnaryOperator" and n["op"] == "*":
             inner = A.strip(n["c"][0])
             return sp.Symbol("*" + A.show(inner), real=True)
+        if k == "CallExpr" and n.get("callee") in ("std::inner_product", "std::accumulate") and len(n.get("args", [])) in (3, 4):
+            r = self._sum_of_algorithm(n)
+            if r is not None:
+                return r
         if k == "CallExpr" and n.get("callee") in ("std::modf", "modf") and len(n["args"]) == 2:
             x = tr.conv(n["args"][0])
             return frac(x)
@@ -269,6 +278,10 @@ class Scanner:
         idx.reverse()
         base = A.strip(cur)
         d0 = A.declref(base)
+        if d0 is not None and d0["decl"] in self.ref_alias and idx:
+            rb, ri, rp = self.ref_alias[d0["decl"]]
+            if not rp:
+                return rb, [sp.expand(i) for i in list(ri)] + [sp.expand(i) for i in idx]
         if d0 is not None and d0["decl"] in self.ptr_alias and idx:
             pbase, poff = self.ptr_alias[d0["decl"]]
             return pbase, [sp.expand(poff + idx[0])] + [sp.expand(i) for i in idx[1:]]
@@ -527,6 +540,7 @@ class Scanner:
             g, l = self._ctx()
             self.accesses.append(Access("store", base, idx, path, n, n["line"], g, l, n["op"], val, rhs, lnode))
             self._modf_out(rhs)
+            self._track(A.declref(lhs), n["op"], val, idx)
             # bind single-assignment locals
             dr = A.declref(lhs)
             if dr is not None and n["op"] == "=" and self.assigned.get(dr["decl"], 0) == 1 and \
@@ -553,6 +567,7 @@ class Scanner:
             self._call(n)
             return
         if k == "UnaryOperator" and n["op"] in ("++", "--"):
+            self._track(A.declref(n["c"][0]), "+=" if n["op"] == "++" else "-=", sp.Integer(1), None)
             base, idx, path, lnode = self._lvalue(n["c"][0])
             g, l = self._ctx()
             self.accesses.append(Access("store", base, idx, path, n, n["line"], g, l, n["op"], None, None, lnode))
@@ -612,7 +627,9 @@ class Scanner:
                     pa = self._pointer_into(d["init"])
                     if pa is not None:
                         self.ptr_alias[d["decl"]] = pa
-                is_ref = _is_lref(d.get("type")) or _is_lref(d.get("ctype"))
+                is_ref = _is_lref(d.get("type")) or _is_lref(d.get("ctype")) or \
+                    any(t_ in (d.get("ctype") or "") for t_ in ("multi_array::sub_array", "multi_array::const_sub_array", "multi_array::multi_array_view"))
+                # (a boost sub_array is a view: a value type that aliases the rows it was taken from)
                 if "init" in d and is_ref:
                     # reference to an array element or field: reads and writes through it are accesses of that element
                     tgt = A.strip(d["init"], casts=False)
@@ -628,6 +645,12 @@ class Scanner:
                     self._modf_out(d["init"])
                     if (self.assigned.get(d["decl"], 0) == 0 or d["decl"] in self.ref_alias) and v is not None:
                         self.tr.bind(d["decl"], v)
+                    elif (self._inline_depth > 0 or self.track_all) and self.assigned.get(d["decl"], 0) > 0 and d["decl"] not in self.ptr_alias and \
+                            not _is_ptr(d.get("ctype") or d.get("type")):
+                        # written again later: follow its value through straight-line and singly-guarded updates (see _track)
+                        self.cur[d["decl"]] = (v, len(self.guards), len(self.loops))
+                        if v is not None:
+                            self.tr.bind(d["decl"], v)
                     g, l = self._ctx()
                     self.accesses.append(Access("store", d["name"], None, "", s, s["line"], g, l, "=",
                                                 v, d["init"], None))
@@ -655,6 +678,7 @@ class Scanner:
             self.stmt(s.get("body"))
             L_ = self.loops.pop()
             self._bulk_from_loop(L_, mark, s.get("body"))
+            self._accumulators(L_, mark)
         elif k == "CXXForRangeStmt":
             lv = s["loopvar"]
             sym = sp.Symbol(lv["name"], real=True)
@@ -663,8 +687,23 @@ class Scanner:
                 self.range_alias[lv["decl"]] = (A.show(A.strip(s["range"])).replace(" ", ""), sym)
             self._loads(s.get("range"))
             self.loops.append(Loop(lv["name"], lv["decl"], sym, None, None, "range", 1, s))
+            mark = (len(self.accesses), len(self.calls))
+            L_ = self.loops[-1]
+            self._parallel_iterators(L_, s.get("body"))
             self.stmt(s.get("body"))
             self.loops.pop()
+            rc = None
+            r_ = A.strip(s.get("range") or {}, casts=False) if s.get("range") else None
+            if r_ is not None:
+                if r_.get("k") in ("ArraySubscriptExpr",) or (r_.get("k") == "CXXOperatorCallExpr" and r_.get("op") == "[]"):
+                    b_, i_ = self._subscript_chain(r_)
+                    if b_ is not None:
+                        rc = (sp.Indexed(sp.IndexedBase(b_), *(list(i_) + [K_])), SIZE(sp.Indexed(sp.IndexedBase(b_), *i_)))
+                else:
+                    nm_ = A.this_field(r_) or (A.declref(r_) or {}).get("name")
+                    if nm_:
+                        rc = (sp.Indexed(sp.IndexedBase(nm_), K_), SIZE(sp.Symbol(nm_, real=True)))
+            self._accumulators(L_, mark, rc)
         elif k == "WhileStmt" and self._while_header(s) is not None:
             h = self._while_header(s)
             lo = h["lo"]
@@ -680,6 +719,7 @@ class Scanner:
             self._compound(h["body"])
             L_ = self.loops.pop()
             self._bulk_from_loop(L_, mark, {"k": "CompoundStmt", "c": h["body"]})
+            self._accumulators(L_, mark)
         elif k in ("WhileStmt", "DoStmt"):
             self._loads(s.get("cond"))
             self.loops.append(Loop("<while>", None, None, None, None, "while", None, s))
@@ -696,11 +736,11 @@ class Scanner:
                 # `if (e == CONST)` selects like `switch (e) { case CONST: }`: same guard form for both spellings
                 self.guards.append(({"k": "SwitchCase", "cond": ec[0], "labels": [ec[1]], "line": s["line"], "id": -s["id"], "from_if": s["cond"]}, True))
             else:
-                self.guards.append((s["cond"], True))
+                self.guards.append(self._guard(s["cond"], True))
             self.stmt(s.get("then"))
             self.guards.pop()
             if s.get("else"):
-                self.guards.append((s["cond"], False))
+                self.guards.append(self._guard(s["cond"], False))
                 self.stmt(s["else"])
                 self.guards.pop()
         elif k == "SwitchStmt":
@@ -732,6 +772,123 @@ class Scanner:
         else:
             self.expr_stmt(s)
 
+    def _container_elem(self, it_node, which):
+        """it_node is X.begin() / X.end() (which = 'begin'/'end') -> (element k_ of X as expression, size expression) or None"""
+        c = A.strip(it_node)
+        while c.get("k") in ("CXXConstructExpr", "MaterializeTemporaryExpr", "CXXBindTemporaryExpr", "CXXFunctionalCastExpr") and len(c.get("args", c.get("c", []))) == 1:
+            c = A.strip((c.get("args") or c.get("c"))[0])
+        if c.get("k") != "CXXMemberCallExpr" or (c.get("callee") or "").split("::")[-1] not in (which, "c" + which):
+            return None
+        obj = A.call_object(c)
+        if obj is None:
+            return None
+        o = A.strip(obj, casts=False)
+        if o.get("k") in ("ArraySubscriptExpr",) or (o.get("k") == "CXXOperatorCallExpr" and o.get("op") == "[]"):
+            base, idx = self._subscript_chain(o)
+            if base is None:
+                return None
+            return sp.Indexed(sp.IndexedBase(base), *(list(idx) + [K_])), SIZE(sp.Indexed(sp.IndexedBase(base), *idx))
+        nm = A.this_field(o) or (A.declref(o) or {}).get("name")
+        if nm is None:
+            return None
+        return sp.Indexed(sp.IndexedBase(nm), K_), SIZE(sp.Symbol(nm, real=True))
+
+    def _sum_of_algorithm(self, n):
+        a = n["args"]
+        b0 = self._container_elem(a[0], "begin")
+        e0 = self._container_elem(a[1], "end")
+        if b0 is None or e0 is None or b0[0] != e0[0]:
+            return None
+        try:
+            init = self.tr.conv(a[-1])
+        except Unconvertible:
+            return None
+        if n["callee"] == "std::accumulate" and len(a) == 3:
+            return init + SUM(b0[0], 0, b0[1])
+        if n["callee"] == "std::inner_product" and len(a) == 4:
+            b1 = self._container_elem(a[2], "begin")
+            if b1 is None:
+                return None
+            return init + SUM(b0[0] * b1[0], 0, b0[1])
+        return None
+
+    def _accumulators(self, L, mark, range_container=None):
+        """after a loop: a scalar local declared before the loop, whose only write in the loop is `acc = acc + t` / `acc += t`
+        (unconditional, directly in this loop), holds init + SUM(t) afterwards"""
+        if L.sym is None:
+            return
+        acc = self.accesses[mark[0]:]
+        names = {}
+        for a in acc:
+            if a.kind == "store" and a.idx is None and not a.path:
+                names.setdefault(a.base, []).append(a)
+        for nm, sts in names.items():
+            if len(sts) != 1:
+                continue
+            st = sts[0]
+            lhs = st.base_node if st.base_node is not None else None
+            d = A.declref(lhs) if lhs is not None else None
+            if d is None or d["decl"] not in self.locals or d["decl"] in self.ref_alias:
+                continue
+            if self.assigned.get(d["decl"], 0) != 1:
+                continue        # written elsewhere too: its value after the loop is not the plain sum
+            if st.loops[-1:] != [L] or len(st.guards) != len(self.guards) or st.value is None:
+                continue
+            me = sp.Symbol(nm, real=True)
+            if st.op == "+=":
+                term = st.value
+            elif st.op == "=" and sp.expand(st.value - me).has(me) is False and st.value.has(me):
+                term = sp.expand(st.value - me)
+            else:
+                continue
+            if term.has(me):
+                continue
+            # value before the loop: the initialiser, provided nothing else wrote the variable before the loop
+            before = [a for a in self.accesses[:mark[0]] if a.kind == "store" and a.idx is None and a.base == nm]
+            if len(before) != 1 or before[0].value is None or before[0].loops[:len(self.loops)] != self.loops[:len(before[0].loops)] or len(before[0].loops) > len(self.loops):
+                continue
+            if L.cmp == "range":
+                if range_container is None:
+                    continue
+                elem, size = range_container
+                t2 = term.subs(L.sym, elem)
+                for it_decl, cont in self._par_iters.get(id(L), {}).items():
+                    t2 = t2.subs(sp.Symbol("*" + self.locals[it_decl]["name"], real=True), cont)
+                if t2.has(L.sym):
+                    continue
+                val = before[0].value + SUM(t2, 0, size)
+            else:
+                if L.lo is None or L.hi is None or L.cmp != "<" or L.step != 1:
+                    continue
+                val = before[0].value + SUM(term.subs(L.sym, K_), L.lo, L.hi)
+            self.tr.bind(d["decl"], val)
+
+    def _parallel_iterators(self, L, body):
+        """an iterator local `auto w = Y.begin();` advanced by `++w;` as the last statement of a range-for body walks Y in step with
+        the loop: inside the body *w is Y[k_]"""
+        self.__dict__.setdefault("_par_iters", {})
+        out = {}
+        if body is None or body.get("k") != "CompoundStmt" or not body.get("c"):
+            self._par_iters[id(L)] = out
+            return
+        last = A.strip(body["c"][-1], casts=False)
+        tgt = None
+        if last.get("k") == "UnaryOperator" and last.get("op") == "++":
+            tgt = A.declref(last["c"][0])
+        if last.get("k") == "CXXOperatorCallExpr" and last.get("op") == "++" and last.get("args"):
+            tgt = A.declref(last["args"][0])
+        if tgt is not None and tgt.get("decl") in self.locals and "init" in self.locals[tgt["decl"]]:
+            ce = self._container_elem(self.locals[tgt["decl"]]["init"], "begin")
+            writes = 0
+            for x in A.walk(body):
+                if x.get("k") in ("UnaryOperator", "CXXOperatorCallExpr") and x.get("op") in ("++", "--", "=", "+=", "-="):
+                    t_ = A.declref((x.get("c") or x.get("args") or [None])[0]) if (x.get("c") or x.get("args")) else None
+                    if t_ is not None and t_.get("decl") == tgt["decl"]:
+                        writes += 1
+            if ce is not None and writes == 1:
+                out[tgt["decl"]] = ce[0]
+        self._par_iters[id(L)] = out
+
     def _ptr_of(self, acc):
         """pointer expression that denotes element 0 of the array an access goes to (as the translator would spell `p` / `v.data()`)"""
         n = acc.base_node if acc.kind == "store" else acc.node
@@ -748,6 +905,10 @@ class Scanner:
             return None
         b = A.strip(cur)
         ty = (b.get("ctype") or "")
+        d_ = A.declref(b)
+        if d_ is not None and d_.get("decl") in self.ptr_alias:
+            # the access was already re-based onto the array the pointer points into (its index carries the pointer's offset)
+            return sp.Symbol(self.ptr_alias[d_["decl"]][0], real=True)
         v = self._try(b)
         if v is None:
             v = sp.Symbol(A.show(b).replace(" ", ""), real=True)
@@ -823,6 +984,64 @@ class Scanner:
                 return "n"
         return name
 
+    def _track(self, dr, op, val, idx):
+        """value of a scalar local after this write: exact on the straight line of its declaration, ite(c, new, old) under one
+        extra plain condition, unknown otherwise (deeper loops, several conditions); reads after the write see that value"""
+        if dr is None or idx is not None or dr.get("decl") not in self.cur:
+            return
+        decl = dr["decl"]
+        old, g0, l0 = self.cur[decl]
+        new = None
+        if old is not None or op == "=":
+            if val is not None:
+                me = old
+                try:
+                    new = {"=": lambda: val, "+=": lambda: me + val, "-=": lambda: me - val, "*=": lambda: me * val, "/=": lambda: me / val}.get(op, lambda: None)()
+                except Exception:
+                    new = None
+        extra = self.guards[g0:]
+        res = None
+        if new is not None and len(self.loops) == l0 and len(self.guards) >= g0:
+            if not extra:
+                res = new
+            elif len(extra) == 1 and old is not None and isinstance(extra[0][0], dict) and extra[0][0].get("k") not in ("SwitchCase", "Catch"):
+                c, pol = extra[0]
+                cs = sp.Symbol("(" + A.show(A.strip(c)) + ")")
+                res = sp.Function("ite")(cs, new, old) if pol else sp.Function("ite")(cs, old, new)
+        self.cur[decl] = (res, g0, l0)
+        if res is not None:
+            self.tr.bind(decl, res)
+        else:
+            self.tr.env.pop(decl, None)
+
+    def _guard(self, cond, pol):
+        """(condition, polarity) with leading negations folded into the polarity: `!(c)` under True is `c` under False"""
+        c = cond
+        hops = 0
+        while True:
+            t = A.strip(c) if isinstance(c, dict) else c
+            if isinstance(t, dict) and t.get("k") == "DeclRefExpr" and t.get("decl") in self.locals and hops < 4:
+                # a condition given a name (const bool apply = (x > 0);) stands for its initialiser
+                d_ = self.locals[t["decl"]]
+                if "init" in d_ and self.assigned.get(t["decl"], 0) == 0 and (d_.get("ctype") or d_.get("type") or "").replace("const ", "").strip() in ("bool", "_Bool"):
+                    c = d_["init"]
+                    hops += 1
+                    continue
+            if isinstance(t, dict) and t.get("k") == "UnaryOperator" and t.get("op") == "!" and t.get("c"):
+                c = t["c"][0]
+                pol = not pol
+                continue
+            if isinstance(t, dict) and t.get("k") == "BinaryOperator" and t.get("op") == "==" and len(t.get("c", [])) == 2 and \
+                    any(A.strip(x_).get("k") in ("CXXNullPtrLiteralExpr", "GNUNullExpr") for x_ in t["c"]):
+                # `p == nullptr` under P is `p != nullptr` under !P: one spelling for null tests
+                t2 = dict(t)
+                t2["op"] = "!="
+                c = t2
+                pol = not pol
+            break
+        return (c, pol)
+
+
     def _always_exits(self, st):
         """does control never fall out of the end of statement st (continue / break / return / throw at its end)?"""
         if st is None:
@@ -846,11 +1065,11 @@ class Scanner:
             self.stmt(c)
             if c.get("k") == "IfStmt" and not c.get("init"):
                 if not c.get("else") and self._always_exits(c.get("then")):
-                    self.guards.append((c["cond"], False)); pushed += 1
+                    self.guards.append(self._guard(c["cond"], False)); pushed += 1
                 elif c.get("else") and self._always_exits(c.get("then")) and not self._always_exits(c.get("else")):
-                    self.guards.append((c["cond"], False)); pushed += 1
+                    self.guards.append(self._guard(c["cond"], False)); pushed += 1
                 elif c.get("else") and self._always_exits(c.get("else")) and not self._always_exits(c.get("then")):
-                    self.guards.append((c["cond"], True)); pushed += 1
+                    self.guards.append(self._guard(c["cond"], True)); pushed += 1
         for _ in range(pushed):
             self.guards.pop()
 
@@ -956,3 +1175,16 @@ def fold_stores(accesses, base, path=""):
             v = cur["value"]
             cur["value"] = {"+=": v + a.value, "-=": v - a.value, "*=": v * a.value, "/=": v / a.value}[a.op]
     return out
+
+
+def copies(scan):
+    """std::copy(first, last, dst) and std::copy_n(first, n, dst) (and loops recognised as such) in one form:
+    list of dict(src, length, dst, call)"""
+    out = []
+    for c in scan.calls:
+        if c.callee == "std::copy_n" and len(c.args) == 3 and None not in c.args:
+            out.append(dict(src=c.args[0], length=c.args[1], dst=c.args[2], call=c))
+        elif c.callee == "std::copy" and len(c.args) == 3 and None not in c.args:
+            out.append(dict(src=c.args[0], length=sp.expand(c.args[1] - c.args[0]), dst=c.args[2], call=c))
+    return out
+
